@@ -14,10 +14,50 @@ open XmppModel XmppModel.Caps
 
 /-! ### Tie to the source: regenerated facts -/
 
-/-- the fields compared, in order, by the `less` function that sorts `i.Identity` in
-`disco/info.go` are the model's sort keys -/
+/-! Every fact is a *probe*: the harness hashes, with a recording hash, the info that holds
+exactly the two items `[u[i], u[j]]` at one level for every ordered pair of distinct positions
+of a small universe `u`, and records whether `u[i]` was written first (the renderings of the
+single items are taken from the real code, too).  The `C20_pair_*` theorems say what the model
+does with such an info: the order is the comparator's answer.  The `C20_gen_*` theorems say
+that the real answers are the comparators' on the whole universe. -/
+
+theorem C20_pair_identities (x y : Identity) : verImpl ⟨[x, y], [], []⟩ =
+    if idLe x y then renderId x ++ renderId y else renderId y ++ renderId x := by
+  simp only [verImpl, mergeSort_pair, sortStrings]
+  split <;> simp
+
+theorem C20_pair_features (x y : Bytes) : verImpl ⟨[], [x, y], []⟩ =
+    if lexLe x y then renderFeat x ++ renderFeat y else renderFeat y ++ renderFeat x := by
+  simp only [verImpl, mergeSort_pair, sortStrings]
+  split <;> simp
+
+theorem C20_pair_forms (x y : Form) : verImpl ⟨[], [], [x, y]⟩ =
+    if formLe x y then renderForm x ++ renderForm y else renderForm y ++ renderForm x := by
+  simp only [verImpl, mergeSort_pair, sortStrings]
+  split <;> simp
+
+theorem C20_pair_fields (t : Bytes) (x y : Field) (hx : x.var ≠ formTypeVar) (hy : y.var ≠ formTypeVar) :
+    renderForm ⟨[⟨formTypeVar, [t]⟩, x, y]⟩ =
+    t ++ lt ++ if fieldLe x y then renderField x ++ renderField y else renderField y ++ renderField x := by
+  have h1 : (Form.mk [⟨formTypeVar, [t]⟩, x, y]).formType = t := by simp [Form.formType]
+  have h2 : (Form.mk [⟨formTypeVar, [t]⟩, x, y]).dataFields = [x, y] := by
+    simp [Form.dataFields, hx, hy]
+  simp only [renderForm, h1, h2, mergeSort_pair]
+  split <;> simp
+
+example : (probeField [0x61]).var ≠ formTypeVar := by decide
+
+theorem C20_pair_values (v x y : Bytes) : renderField ⟨v, [x, y]⟩ =
+    v ++ lt ++ if lexLe x y then renderFeat x ++ renderFeat y else renderFeat y ++ renderFeat x := by
+  simp only [renderField, mergeSort_pair, sortStrings]
+  split <;> simp
+
+set_option maxRecDepth 8000 in
+/-- the real code orders every pair of the sixteen probe identities (category, type, lang ∈
+{a, b}, name ∈ {m, n}; equal keys included) as the cascade `idLe` over `identityKeys` does -/
 theorem C20_gen_identity_keys :
-    Generated.C20.identityKeys = some (identityKeys.map IdSel.goName) := by decide
+    Generated.C20.probeIdentities = probeIds.map (fun i => (i.cat, i.typ, i.lang, i.name)) ∧
+    Generated.C20.identityOrder = some (orderTable probeIds idLe) := by decide
 
 /-- the identity is written as `category/type/lang/name<` (the four fields in the order of
 `identityArgs`, `/` between them, `<` after the last) -/
@@ -26,12 +66,14 @@ theorem C20_identity_format (i : Identity) :
       (fun x acc => x ++ (if acc = [] then lt else slash ++ acc)) [] := by
   simp [identityArgs, IdSel.get, renderId, lt, slash]
 
-/-- features are sorted by `Var`; besides the identities and the features exactly two more
-slices of structs are sorted (the fields of each form, the forms) and one slice of strings
-(the values of a field) -/
+/-- the real code orders every pair of probe strings as features, as `FORM_TYPE`s of two forms,
+as names of two fields of a form and as values of a field the way byte-wise `lexLe` does -/
 theorem C20_gen_other_sorts :
-    Generated.C20.featureKeys = some ["Var"] ∧ Generated.C20.structSorts = some 2 ∧
-    Generated.C20.stringSorts = some 1 := by decide
+    Generated.C20.probeStrings = probeStrings ∧
+    Generated.C20.featureOrder = some (orderTable probeStrings lexLe) ∧
+    Generated.C20.formOrder = some (orderTable (probeStrings.map probeForm) formLe) ∧
+    Generated.C20.fieldOrder = some (orderTable (probeStrings.tail.map probeField) fieldLe) ∧
+    Generated.C20.valueOrder = some (orderTable probeStrings lexLe) := by decide
 
 /-! ### Order independence -/
 
